@@ -286,15 +286,15 @@ def fp_midpoint_worker(case):
     from vf import fpsym
     axis, with_bounds = case
     M = load_mesh_module()
-    eng = Engine(timeout_ms=120000)
+    eng = Engine(timeout_ms=120000, logic='QF_FP')
     res = dict(stats=None, violations=[], inconclusive=[], samples=[], functions=['src/mesh.py:Mesh.__bisect_edge'],
                evaluations=0, nontrivial=0, part_extra=dict(states=0, transitions=0))
 
     def body():
         lo, hi, fixed = fpsym.FPV.var('lo'), fpsym.FPV.var('hi'), fpsym.FPV.var('fixed')
         for v in (lo, hi, fixed):
-            eng.assume(fpsym.finite_bounded(v, 2.0**60))
-        eng.assume(lo < hi)
+            eng.assume(fpsym.finite_bounded(v, 2.0**60), check=False)
+        eng.assume(lo < hi, check=False)
         mesh = object.__new__(M.Mesh)
         mesh.vertices = []
         if axis == 1:   # space edge: t fixed, x from lo to hi
@@ -352,15 +352,22 @@ def fp_midpoint_worker(case):
     return res
 
 
+def any_worker(case):
+    if case[0] == 'fp':
+        return fp_midpoint_worker((case[1], case[2]))
+    return worker(case)
+
+
 def run(out, mode='C02'):
     cases, cfg = cases_for(out.tier, mode, out.seed)
-    results = report.pmap('checks.c02', 'worker', cases)
-    for c, r in zip(cases, results):
-        report.merge_worker(out, r, part='%s depth %d' % (c[0], c[1]))
-    if mode == 'C02':
-        fpc = [(0, out.tier != 'quick'), (1, out.tier != 'quick')]
-        for c, r in zip(fpc, report.pmap('checks.c02', 'fp_midpoint_worker', fpc)):
-            report.merge_worker(out, r, part='QF_FP lemma: midpoint of __bisect_edge (axis %d)' % c[0])
+    fpc = [('fp', 0, out.tier != 'quick'), ('fp', 1, out.tier != 'quick')] if mode == 'C02' else []
+    allc = fpc + cases   # the two long QF_FP queries first, so that they overlap with the mesh exploration
+    results = report.pmap('checks.c02', 'any_worker', allc)
+    for c, r in zip(allc, results):
+        if c[0] == 'fp':
+            report.merge_worker(out, r, part='QF_FP lemma: midpoint of __bisect_edge (axis %d)' % c[1])
+        else:
+            report.merge_worker(out, r, part='%s depth %d' % (c[0], c[1]))
     out.bounds = dict(grids={g: dict(zip(('time_slabs', 'space_cells', 'glued'), meshsym.GRIDS[g]))
                              for g in cfg['grids']},
                       history_depth=cfg['depth'],
